@@ -61,6 +61,8 @@ fn main() {
         "C05" | "C06" | "C14" => gridmc::clientgrid::run(&ctx),
         "C07" => gridmc::boundgrid::run(&ctx),
         "C19" => procmc::run(&ctx),
+        "C16" => gridmc::segfiles::run(&ctx),
+        "C17" => gridmc::abi::run(&ctx),
         "C15" => threadmc::run(&ctx),
         "C08" | "C09" | "C10" | "C12" | "C13" => histmc::props::run(&ctx),
         "C02" | "C03" | "C04" | "C11" | "C18" => seqmc::props::run(&ctx),
